@@ -206,7 +206,14 @@ ARGS_LOOP:
 					// TODO: Also remove the / when dealing with windows.
 					partialOption := strings.TrimPrefix(strings.TrimPrefix(iterator.Value(), "-"), "-")
 					// value = strings.SplitN(value, "=", 2)[0]
-					for k, v := range currentProgramNode.ChildOptions {
+					// Iterate in sorted order so that lastOpt below doesn't depend on map iteration order.
+					optionNames := []string{}
+					for k := range currentProgramNode.ChildOptions {
+						optionNames = append(optionNames, k)
+					}
+					sort.Strings(optionNames)
+					for _, k := range optionNames {
+						v := currentProgramNode.ChildOptions[k]
 						// handle lonesome dash
 						if k == "-" {
 							if iterator.Value() == "-" {
